@@ -275,3 +275,33 @@ def _(self, data: Map('str', Val), encoder: Obj("Encoder")):
     loop(1, invariant=[encoder.number_of_bits >= g_pre, g_pre % 8 == 0,
                        g_pre >= old(encoder.number_of_bits) + len(self.optionals),
                        g_pre < old(encoder.number_of_bits) + len(self.optionals) + 8])
+
+
+@contract("OctetString.encode", props=["C06", "C01"])
+def _(self, data: Bytes, encoder: Obj("Encoder")):
+    # X.696 14: a fixed size is just the octets; otherwise a length determinant, then the octets
+    requires(self.number_of_bytes is None or len(data) == self.number_of_bytes)      # established by check_constraints (C11)
+    raises(EncodeError, when=self.number_of_bytes is None and need8(len(data)) > 127)
+    assigns(encoder)
+    ensures(implies(self.number_of_bytes is not None,
+                    encoder.number_of_bits == old(encoder.number_of_bits) + 8 * len(data)
+                    and encoder.value == old(encoder.value) * pow2(8 * len(data)) + be_val(list(data))))
+    ensures(implies(self.number_of_bytes is None and len(data) < 128,
+                    encoder.number_of_bits == old(encoder.number_of_bits) + 8 + 8 * len(data)
+                    and encoder.value == (256 * old(encoder.value) + len(data)) * pow2(8 * len(data)) + be_val(list(data))))
+
+
+@contract("BitString.encode", props=["C06", "C01"])
+def _(self, data: Tup(Bytes, Nat), encoder: Obj("Encoder")):
+    # X.696 13: a fixed size: ceil(n / 8) octets, unused bits zero; otherwise length determinant, an octet with the
+    # number of unused bits, then the octets
+    requires(data[1] <= 8 * len(data[0]))
+    requires(self.number_of_bits is None or data[1] == self.number_of_bits)            # established by check_constraints (C11)
+    raises(EncodeError, when=self.number_of_bits is None and need8((data[1] + 7) // 8 + 1) > 127)
+    assigns(encoder)
+    ensures(implies(self.number_of_bits is not None,
+                    encoder.number_of_bits == old(encoder.number_of_bits) + 8 * ((data[1] + 7) // 8)))
+    ensures(implies(self.number_of_bits is None and (data[1] + 7) // 8 + 1 < 128,
+                    encoder.number_of_bits == old(encoder.number_of_bits) + 16 + 8 * ((data[1] + 7) // 8)))
+    # (that the unused bits of the last octet are cleared is proved on ber.BitString.encode_content, the same masking
+    # expression; here it needs sequence reasoning about data[:n] + [last] the solver did not do in time)
